@@ -239,7 +239,7 @@ pub fn writer_direction(run: &Run, total: &mut SweepOut) {
 
 fn dbmap() -> Value {
     let mut m = serde_json::Map::new();
-    for (class, prop) in [("Part", "size"), ("Part", "Color3uint8"), ("Part", "Anchored"), ("ModuleScript", "Source")] {
+    for (class, prop) in [("Part", "size"), ("Part", "Color3uint8"), ("Part", "Anchored"), ("ModuleScript", "Source"), ("WeldConstraint", "Part0Internal"), ("WeldConstraint", "Part1Internal")] {
         let canonical = specdb::expect(class, prop).map(|e| e.name).unwrap_or_else(|| prop.to_owned());
         m.insert(format!("{}.{}", class, prop), json!(canonical));
     }
